@@ -1,4 +1,5 @@
 import QmiModel.Model.Config
+import QmiModel.Model.ConfigCheck
 import Drv.Common
 /-!
 Line-protocol driver for the C16 model (configuration loading).
@@ -9,7 +10,10 @@ values  `N` None | `T`/`F` bool | `I<int>` | `D<repr>` float | `X<int>` float(in
         `L<n> v…` list | `U<n> v…` tuple | `M<n> (S<key> v)…` dict | `O<n> S<cls> (S<name> v)…` instance
 types   `i f s b a` | `x y z` (untyped list / Tuple / dict) | `o τ` | `l τ` | `v τ` (Tuple[τ, ...]) | `t<n> τ…` | `d τ` |
         `c<n> S<name> (S<field> τ (`-` | `= v`))…`
-ops     `ty τ` (select the type) · `wf` · `parse v` · `ctor v` · `todict v` · `strip S…` · `line S…` ·
+raw     `i f s b a` | `N` NoneType | `x y z` | `Y` builtin tuple | `?` anything else | `u<n> ρ…` Union |
+        `l ρ` | `v ρ` | `t<n> ρ…` | `d ρkey ρ` | `c<n> S<name> (S<field> ρ (`-` | `= v`) (`+` | `!`))…`  (`!` = init=False)
+ops     `rty ρ` (select the raw type) · `rcheck` · `rparse v` · `rfrom v` · `choose (S…|-) (S…|-)` · `setkey S… v v`
+        `ty τ` (select the type) · `wf` · `parse v` · `ctor v` · `todict v` · `strip S…` · `line S…` ·
         `hook v` · `dump v`
 -/
 open QmiModel.Config
@@ -91,6 +95,7 @@ partial def pTy : List String → Option (Ty × List String)
     | ['x'] => some (.listAny, rest)
     | ['y'] => some (.tupleAny, rest)
     | ['z'] => some (.dictAny, rest)
+    | ['n'] => some (.never, rest)
     | ['o'] => (pTy rest).map (fun (t, r) => (.opt t, r))
     | ['l'] => (pTy rest).map (fun (t, r) => (.list t, r))
     | ['v'] => (pTy rest).map (fun (t, r) => (.tupleVar t, r))
@@ -133,6 +138,73 @@ partial def pFields : Nat → List String → Option (List Field × List String)
     | [] => none
 end
 
+mutual
+partial def pRaw : List String → Option (RawTy × List String)
+  | [] => none
+  | tok :: rest =>
+    match tok.toList with
+    | ['i'] => some (.int, rest)
+    | ['f'] => some (.float, rest)
+    | ['s'] => some (.str, rest)
+    | ['b'] => some (.bool, rest)
+    | ['a'] => some (.any, rest)
+    | ['N'] => some (.noneType, rest)
+    | ['x'] => some (.bareList, rest)
+    | ['y'] => some (.bareTuple, rest)
+    | ['z'] => some (.bareDict, rest)
+    | ['Y'] => some (.builtinTuple, rest)
+    | ['?'] => some (.other, rest)
+    | ['l'] => (pRaw rest).map (fun (t, r) => (.listOf t, r))
+    | ['v'] => (pRaw rest).map (fun (t, r) => (.tupleVar t, r))
+    | ['d'] => do
+      let (k, r1) ← pRaw rest
+      let (t, r2) ← pRaw r1
+      pure (.dictOf k t, r2)
+    | 'u' :: ds => do
+      let n ← (String.ofList ds).toNat?
+      let (ts, r) ← pRaws n rest
+      pure (.union ts, r)
+    | 't' :: ds => do
+      let n ← (String.ofList ds).toNat?
+      let (ts, r) ← pRaws n rest
+      pure (.tupleFix ts, r)
+    | 'c' :: ds => do
+      let n ← (String.ofList ds).toNat?
+      match rest with
+      | nameTok :: rest' =>
+        let name ← pStr nameTok
+        let (fs, r) ← pRawFields n rest'
+        pure (.struct name fs, r)
+      | [] => none
+    | _ => none
+partial def pRaws : Nat → List String → Option (List RawTy × List String)
+  | 0, r => some ([], r)
+  | n + 1, r => do
+    let (t, r1) ← pRaw r
+    let (ts, r2) ← pRaws n r1
+    pure (t :: ts, r2)
+partial def pRawFields : Nat → List String → Option (List RawField × List String)
+  | 0, r => some ([], r)
+  | n + 1, r =>
+    match r with
+    | fTok :: r0 => do
+      let f ← pStr fTok
+      let (t, r1) ← pRaw r0
+      let (d, r2) ← (match r1 with
+        | "-" :: r2 => some (none, r2)
+        | "=" :: r2 => (pVal r2).map (fun (d, r3) => (some d, r3))
+        | _ => none)
+      match r2 with
+      | "+" :: r3 =>
+        let (fs, r4) ← pRawFields n r3
+        pure ((f, t, d, true) :: fs, r4)
+      | "!" :: r3 =>
+        let (fs, r4) ← pRawFields n r3
+        pure ((f, t, d, false) :: fs, r4)
+      | _ => none
+    | [] => none
+end
+
 def encStr (s : Str) : String := "S" ++ ",".intercalate (s.map toString)
 
 mutual
@@ -153,6 +225,7 @@ partial def encPair : Str × PV → String
 end
 
 def encItem : PathItem → String
+  | .elem => "e"
   | .idx i => s!"i{i}"
   | .key k => "k" ++ ",".intercalate (k.map toString)
   | .field f => "f" ++ ",".intercalate (f.map toString)
@@ -165,15 +238,65 @@ def encKind : CfgKind → String
   | .missing => "missing"
   | .unknown => "unknown"
   | .toplevel => "toplevel"
+  | .badUnion => "badUnion"
+  | .badKey => "badKey"
+  | .badType => "badType"
 
 def encExc : PyExc → String
   | .config k p => s!"exc:QMI_ConfigurationException {encKind k} {encPath p}"
   | .typeError => "exc:TypeError"
+  | .attributeError => "exc:AttributeError"
+  | .osError => "exc:OSError"
   | .valueError => "exc:ValueError"
 
 def whole {α : Type} (r : Option (α × List String)) : Option α :=
   match r with
   | some (a, []) => some a
+  | _ => none
+
+def encR (r : R PV) : String :=
+  match r with
+  | .ok v => s!"ok {encVal v}"
+  | .error e => encExc e
+
+def pOptStr (tok : String) : Option (Option Str) :=
+  if tok == "-" then some none else (pStr tok).map some
+
+def stepRaw (ρ : RawTy) (line : String) : Option (RawTy × String) :=
+  match line.splitOn " " with
+  | "rty" :: rest =>
+    match whole (pRaw rest) with
+    | some r => some (r, "ok")
+    | none => some (ρ, "bad-op")
+  | ["rcheck"] =>
+    match checkType ρ [] with
+    | .ok _ => some (ρ, "ok")
+    | .error e => some (ρ, encExc e)
+  | "rparse" :: rest =>
+    match whole (pVal rest) with
+    | some v =>
+      match parseRaw ρ v [] with
+      | some r => some (ρ, encR r)
+      | none => some (ρ, "unmodelled")
+    | none => some (ρ, "bad-op")
+  | "rfrom" :: rest =>
+    match whole (pVal rest) with
+    | some v =>
+      match fromDictFull ρ v with
+      | some r => some (ρ, encR r)
+      | none => some (ρ, "unmodelled")
+    | none => some (ρ, "bad-op")
+  | ["choose", a, e] =>
+    match pOptStr a, pOptStr e with
+    | some a, some e =>
+      match chooseFile a e with
+      | some f => some (ρ, encStr f)
+      | none => some (ρ, "-")
+    | _, _ => some (ρ, "bad-op")
+  | "setkey" :: kTok :: rest =>
+    match pStr kTok, pVals 2 rest with
+    | some k, some ([v, .dict kvs], []) => some (ρ, encVal (.dict (setKey k v kvs)))
+    | _, _ => some (ρ, "bad-op")
   | _ => none
 
 def stepLine (τ : Ty) (line : String) : Ty × String :=
@@ -232,4 +355,11 @@ def stepLine (τ : Ty) (line : String) : Ty × String :=
 
 end Drv.C16
 
-def main : IO Unit := Drv.main' Drv.C16.stepLine Ty.any
+def step2 (σ : Ty × RawTy) (line : String) : (Ty × RawTy) × String :=
+  match Drv.C16.stepRaw σ.2 line with
+  | some (ρ, out) => ((σ.1, ρ), out)
+  | none =>
+    let (τ, out) := Drv.C16.stepLine σ.1 line
+    ((τ, σ.2), out)
+
+def main : IO Unit := Drv.main' step2 (Ty.any, RawTy.any)
